@@ -903,10 +903,48 @@ func (e *fnEnc) loopEnv(li *loopInfo, phiVal func(*ssa.Phi) Term, heap heapState
 			}
 		}
 	}
+	// an index loop of the canonical shape `for k := 0; k < len(s); k++` is the
+	// same loop as `for k := range s`: let contracts written for one shape
+	// (rangeindex = index of the last element processed, rangeslice = s) read
+	// on the other
+	if _, has := vars["rangeindex"]; !has {
+		if last, ok := li.header.Instrs[len(li.header.Instrs)-1].(*ssa.If); ok {
+			if cmp, ok := last.Cond.(*ssa.BinOp); ok && cmp.Op == token.LSS {
+				if phi, ok := cmp.X.(*ssa.Phi); ok && phi.Block() == li.header && isCountingPhi(phi, li) {
+					t := phiVal(phi)
+					vars["rangeindex"] = Term{S: fmt.Sprintf("(- %s 1)", t.S), Sort: "Int", T: phi.Type()}
+				}
+			}
+		}
+	}
 	env.vars = vars
 	env.heap = heap
 	env.old = heapState{}
 	return env
+}
+
+// isCountingPhi: a header phi that starts at the constant 0 on every entry
+// edge and is itself plus one on every back edge.
+func isCountingPhi(phi *ssa.Phi, li *loopInfo) bool {
+	for i, p := range phi.Block().Preds {
+		ev := phi.Edges[i]
+		if li.blocks[p] {
+			b, ok := ev.(*ssa.BinOp)
+			if !ok || b.Op != token.ADD || b.X != ssa.Value(phi) {
+				return false
+			}
+			c, ok := b.Y.(*ssa.Const)
+			if !ok || c.Value == nil || c.Int64() != 1 {
+				return false
+			}
+		} else {
+			c, ok := ev.(*ssa.Const)
+			if !ok || c.Value == nil || c.Int64() != 0 {
+				return false
+			}
+		}
+	}
+	return true
 }
 
 func (e *fnEnc) loopInvariants(li *loopInfo, env *cenv) []struct {
